@@ -2,6 +2,7 @@ package checks
 
 import (
 	"fmt"
+	"go/token"
 	"go/types"
 	"sort"
 	"strings"
@@ -393,4 +394,286 @@ func (c *Ctx) chanFieldsOf(v ssa.Value, pkgFuncs []*ssa.Function) [][2]string {
 	}
 	walk(v, 0)
 	return out
+}
+
+// connWriteSummary: which service functions are mere wrappers of the socket write (they write a parameter to the
+// connection and neither draw a serial nor encode a header), so that a call to them counts as the write itself.
+type connWriteSummary struct {
+	wrappers map[*ssa.Function]int // wrapper → index of the parameter that is written
+}
+
+func (c *Ctx) connWrites() *connWriteSummary {
+	if c.cw != nil {
+		return c.cw
+	}
+	w := &connWriteSummary{wrappers: map[*ssa.Function]int{}}
+	fns := c.RepoFuncs("service")
+	for round := 0; round < 3; round++ {
+		changed := false
+		for _, fn := range fns {
+			if _, done := w.wrappers[fn]; done {
+				continue
+			}
+			var datas []ssa.Value
+			other := false
+			for _, b := range fn.Blocks {
+				for _, ins := range b.Instrs {
+					if d, ok := w.site(ins); ok {
+						datas = append(datas, d)
+					}
+					if call, isC := ins.(*ssa.Call); isC {
+						if sc := call.Call.StaticCallee(); sc != nil && (sc.Name() == "curSeq" || (sc.Name() == "Encode" && strings.Contains(sc.String(), "jt808.Header"))) {
+							other = true
+						}
+					}
+				}
+			}
+			if len(datas) != 1 || other {
+				continue
+			}
+			if prm, isP := datas[0].(*ssa.Parameter); isP {
+				for i, q := range fn.Params {
+					if q == prm {
+						w.wrappers[fn] = i
+						changed = true
+					}
+				}
+			}
+		}
+		if !changed {
+			break
+		}
+	}
+	c.cw = w
+	return w
+}
+
+// site: ins writes bytes to the connection, directly (net.Conn.Write) or through a wrapper; data = the bytes written.
+func (w *connWriteSummary) site(ins ssa.Instruction) (data ssa.Value, ok bool) {
+	call, isC := ins.(*ssa.Call)
+	if !isC {
+		return nil, false
+	}
+	if isConnWrite(ins) {
+		return call.Call.Args[len(call.Call.Args)-1], true
+	}
+	if sc := call.Call.StaticCallee(); sc != nil {
+		if i, isW := w.wrappers[sc]; isW && i < len(call.Call.Args) {
+			return call.Call.Args[i], true
+		}
+	}
+	return nil, false
+}
+
+func (w *connWriteSummary) is(ins ssa.Instruction) bool { _, ok := w.site(ins); return ok }
+
+// handOver summarises, per function of a package, which pointer parameters it may send on a channel (directly or
+// through a callee that does), and whether that only happens on paths that return true.
+type handOver struct {
+	onlyWhenTrue bool
+	via          string
+}
+
+func (c *Ctx) handOverSummaries(fns []*ssa.Function) map[*ssa.Function]map[int]handOver {
+	sum := map[*ssa.Function]map[int]handOver{}
+	paramIdx := func(fn *ssa.Function, v ssa.Value) int {
+		for i, p := range fn.Params {
+			if ssa.Value(p) == v {
+				return i
+			}
+		}
+		return -1
+	}
+	returnsTrueAfter := func(fn *ssa.Function, from ssa.Instruction) bool {
+		if fn.Signature.Results().Len() != 1 {
+			return false
+		}
+		if b, ok := fn.Signature.Results().At(0).Type().Underlying().(*types.Basic); !ok || b.Kind() != types.Bool {
+			return false
+		}
+		seen := map[*ssa.BasicBlock]bool{}
+		okAll, any := true, false
+		var walk func(b *ssa.BasicBlock)
+		walk = func(b *ssa.BasicBlock) {
+			if seen[b] {
+				return
+			}
+			seen[b] = true
+			if ret, isR := b.Instrs[len(b.Instrs)-1].(*ssa.Return); isR {
+				any = true
+				k, isK := ret.Results[0].(*ssa.Const)
+				if !isK || k.Value == nil || k.Value.String() != "true" {
+					okAll = false
+				}
+			}
+			for _, s := range b.Succs {
+				walk(s)
+			}
+		}
+		// the block of `from` itself (its tail) and everything reachable
+		walk(from.Block())
+		return okAll && any
+	}
+	for round := 0; round < 4; round++ {
+		changed := false
+		for _, fn := range fns {
+			for _, b := range fn.Blocks {
+				for _, ins := range b.Instrs {
+					var sent ssa.Value
+					via := ""
+					switch x := ins.(type) {
+					case *ssa.Send:
+						sent, via = x.X, "send at "+c.P.RelPos(x.Pos())
+					case *ssa.Call:
+						if sc := x.Call.StaticCallee(); sc != nil {
+							for j, h := range sum[sc] {
+								if j < len(x.Call.Args) {
+									if i := paramIdx(fn, x.Call.Args[j]); i >= 0 {
+										if _, isPtr := fn.Params[i].Type().Underlying().(*types.Pointer); isPtr {
+											only := returnsTrueAfter(fn, ins)
+											if sum[fn] == nil {
+												sum[fn] = map[int]handOver{}
+											}
+											if old, had := sum[fn][i]; !had || (old.onlyWhenTrue && !only) {
+												sum[fn][i] = handOver{only, shortFn(sc) + " → " + h.via}
+												changed = true
+											}
+										}
+									}
+								}
+							}
+						}
+						continue
+					default:
+						continue
+					}
+					i := paramIdx(fn, sent)
+					if i < 0 {
+						continue
+					}
+					if _, isPtr := fn.Params[i].Type().Underlying().(*types.Pointer); !isPtr {
+						continue
+					}
+					only := returnsTrueAfter(fn, ins)
+					if sum[fn] == nil {
+						sum[fn] = map[int]handOver{}
+					}
+					if old, had := sum[fn][i]; !had || (old.onlyWhenTrue && !only) {
+						sum[fn][i] = handOver{only, via}
+						changed = true
+					}
+				}
+			}
+		}
+		if !changed {
+			break
+		}
+	}
+	return sum
+}
+
+// useAfterHandOver: in fn, a pointer passed to a callee that may send it on a channel is not used afterwards (when the
+// callee sends only on paths returning true: not used on the branch where the call's result is true).
+func (c *Ctx) useAfterHandOver(fn *ssa.Function, sum map[*ssa.Function]map[int]handOver) (sites int, bad []string) {
+	for _, b := range fn.Blocks {
+		for idx, ins := range b.Instrs {
+			call, isC := ins.(*ssa.Call)
+			if !isC {
+				continue
+			}
+			sc := call.Call.StaticCallee()
+			if sc == nil || len(sum[sc]) == 0 {
+				continue
+			}
+			for j, h := range sum[sc] {
+				if j >= len(call.Call.Args) {
+					continue
+				}
+				v := call.Call.Args[j]
+				if _, isPtr := v.Type().Underlying().(*types.Pointer); !isPtr {
+					continue
+				}
+				if _, isParam := v.(*ssa.Parameter); isParam && sum[fn] != nil {
+					if _, fwd := sum[fn][paramIdxOf(fn, v)]; fwd {
+						// fn itself hands the pointer on: its own callers are checked; uses inside fn still are
+					}
+				}
+				sites++
+				defIns, _ := v.(ssa.Instruction)
+				uses := func(i ssa.Instruction) bool {
+					var ops []*ssa.Value
+					for _, op := range i.Operands(ops) {
+						if *op == v {
+							return true
+						}
+					}
+					return false
+				}
+				seen := map[*ssa.BasicBlock]bool{}
+				var scan func(blk *ssa.BasicBlock, from int) string
+				scan = func(blk *ssa.BasicBlock, from int) string {
+					for k := from; k < len(blk.Instrs); k++ {
+						i := blk.Instrs[k]
+						if i == defIns {
+							return ""
+						}
+						if _, isDbg := i.(*ssa.DebugRef); isDbg {
+							continue
+						}
+						if uses(i) {
+							return c.P.RelPos(i.Pos())
+						}
+					}
+					succs := blk.Succs
+					if h.onlyWhenTrue {
+						// the pointer was handed over only if the call returned true: follow that edge alone
+						if iff, isIf := blk.Instrs[len(blk.Instrs)-1].(*ssa.If); isIf {
+							cond, neg := iff.Cond, false
+							for {
+								u, isU := cond.(*ssa.UnOp)
+								if !isU || u.Op != token.NOT {
+									break
+								}
+								cond, neg = u.X, !neg
+							}
+							if cond == ssa.Value(call) {
+								if neg {
+									succs = blk.Succs[1:2]
+								} else {
+									succs = blk.Succs[0:1]
+								}
+							}
+						}
+					}
+					for _, su := range succs {
+						if seen[su] {
+							continue
+						}
+						seen[su] = true
+						if r := scan(su, 0); r != "" {
+							return r
+						}
+					}
+					return ""
+				}
+				if where := scan(b, idx+1); where != "" {
+					cond := ""
+					if h.onlyWhenTrue {
+						cond = " (on the path where it returned true)"
+					}
+					bad = append(bad, fmt.Sprintf("%s is used at %s after %s may have sent it on a channel%s [%s]: the receiving goroutine owns it by then", v.Name(), where, shortFn(sc), cond, h.via))
+				}
+			}
+		}
+	}
+	return
+}
+
+func paramIdxOf(fn *ssa.Function, v ssa.Value) int {
+	for i, p := range fn.Params {
+		if ssa.Value(p) == v {
+			return i
+		}
+	}
+	return -1
 }
